@@ -12,7 +12,7 @@ RULE = ('one case = a byte string (random / zeros / periodic / low entropy, <= 4
         '[min,max] (incl. min=max, max<8, unaligned max) and 4..8 seeded segmentations (single piece, one-byte pieces, empty pieces anywhere, '
         'pieces of exactly max, max+-1..3, 2*max, random); the REAL Python adapter over the freshly compiled C++ cuts each segmentation three '
         'times with the bytes adjacent to the buffer (the <=3 bytes the window load may touch) set to zeros, 0xFF and seeded values and '
-        'interleaved with calls on other chunker instances. Oracles: concatenation = input and no empty chunk; chunks that begin more than '
+        'interleaved with calls on other chunker instances and with a second stream being cut by the same adapter object. Oracles: concatenation = input and no empty chunk; chunks that begin more than '
         '2*max before the end have min <= len <= max and len % 4 == 0; identical chunk lists under every adjacent-memory content and '
         'repetition; chunks outside the tail zone equal the pure-Python RefChunker for every segmentation. distinct_nontrivial = distinct '
         '(params, stream digest, segmentation digest) among streams with > 2*max bytes')
@@ -171,6 +171,14 @@ def run_case(case):
             for _ in noise_adapter(iter([blob, blob[:7]]), params=blob[:16] if blob[0] else b'\x01' + blob[1:16]):
                 yield
 
+    def same_instance_noise():
+        # a second stream being cut by the SAME adapter object at the same time
+        r = substream(case['tail_seed'], 'noise-same')
+        while True:
+            blob = r.randbytes(5 * mx + 7)
+            for _ in adapter(iter([blob[:mx + 1], blob[mx + 1:], b'', blob[:3]]), params=key):
+                yield
+
     for seg in case['segs']:
         if 0 in seg:
             probes['empty_pieces'] = 1
@@ -180,7 +188,7 @@ def run_case(case):
             probes['piece_eq_max'] = 1
         runs = []
         try:
-            for mode, other in (('zeros', None), ('ones', noise()), ('seeded', None), ('zeros', noise())):
+            for mode, other in (('zeros', None), ('ones', noise()), ('seeded', None), ('zeros', noise()), ('zeros', same_instance_noise())):
                 runs.append(cut(adapter, data, seg, key, _Tail(mode, case['tail_seed']), other))
         except install.ChunkerNoProgress as e:
             viol.append({'cls': 'no-progress', 'sig': sig, 'msg': f'min={mn} max={mx} len={len(data)} seg={seg[:12]}: chunker does not terminate ({e})'})
@@ -198,7 +206,7 @@ def run_case(case):
             i = next(i for i, r in enumerate(runs) if r != chunks)
             viol.append({'cls': 'depends-on-adjacent-memory-or-earlier-calls', 'sig': sig,
                          'msg': f'min={mn} max={mx} len={len(data)} seg={seg[:12]}: chunk sizes {list(map(len, chunks))[:10]} with zero bytes after the buffer, '
-                                f'{list(map(len, runs[i]))[:10]} with {["zeros", "0xFF", "seeded", "zeros+interleaved"][i]}'})
+                                f'{list(map(len, runs[i]))[:10]} with {["zeros", "0xFF", "seeded", "zeros+interleaved", "zeros+a second stream on the same adapter object"][i]}'})
             break
         pos = 0
         bad = None
@@ -225,7 +233,7 @@ def run_case(case):
         if len(chunks) >= 2 and len(chunks[-1]) + len(chunks[-2]) < mx + mn and len(chunks[-2]) == (len(chunks[-1]) + len(chunks[-2])) // 2:
             probes['tail_rule_half'] = 1
     return {'violations': viol, 'digest': hashlib.blake2b(''.join(digests).encode(), digest_size=16).hexdigest(), 'digests': digests,
-            'nontrivial': len(data) > 2 * mx, 'probes': probes, 'evaluations': len(case['segs']) * 4, 'sim_s': 0.0, 'steps': 0,
+            'nontrivial': len(data) > 2 * mx, 'probes': probes, 'evaluations': len(case['segs']) * 5, 'sim_s': 0.0, 'steps': 0,
             'sample': {'min': mn, 'max': mx, 'len': len(data), 'segmentations': [s[:10] for s in case['segs'][:3]], 'chunks_outside_tail': len(ref_chunks)}}
 
 
